@@ -51,6 +51,14 @@ CHECKS["C11"] = dict(
     design_ref="5/C11",
 )
 
+CHECKS["C12"] = dict(
+    category="proof",
+    text="For each of 54 scenario-element classes two instances are built through the public constructor with independent symbolic attribute values and the real __eq__/__hash__ source is executed symbolically: reflexivity, x == deepcopy(x), symmetry, 'all attributes agree => equal', 'exactly one constructor attribute differs (by more than 1e-10 if real) => unequal' (every attribute), hash totality (also with default optional arguments) and 'equal => equal hashes' are postconditions discharged by z3 for all values; discrete attributes (ids, enums, flags, member lists) and permuted insertion orders of id sets are covered by per-class variants.",
+    note="hash() is an uninterpreted function of the canonical tuple (numbers by value, frozensets commutative); np.array2string(np.around(a,10)) and str(float) are injective functions of the (rounded) values; round(x,10) is within 0.5e-10 of x; nested components of composite classes carry a few symbolic leaves each (their own class contract covers all of their attributes); collections have small concrete sizes",
+    technique="deductive: AST symbolic execution of real __eq__/__hash__ source on two symbolic instances per class, VCs discharged by z3",
+    design_ref="5/C12",
+)
+
 NOT_YET = {}
 
 def main():
